@@ -508,7 +508,14 @@ func crFlat(seq []crItem) []string {
 const (
 	crModeFS   = iota // file-system mutations, hooks, lock operations; tags [empty] / [nonempty]
 	crModeLoad        // L = call of the index loader, M = access to the message list; tags [loaded] / [unloaded]
+	crModeScope       // everything of crModeFS plus L, M and E = AfterMessageDeleted.Emit; no tags (filelock.go)
 )
+
+// fsMode: file-system mutations, hooks and lock operations are atoms
+func (w *crWalk) fsMode() bool { return w.mode == crModeFS || w.mode == crModeScope }
+
+// loadMode: the index loader is an atom (not inlined) and accesses to the message list are atoms
+func (w *crWalk) loadMode() bool { return w.mode == crModeLoad || w.mode == crModeScope }
 
 type crWalk struct {
 	p      *crPkg
@@ -853,7 +860,7 @@ func (w *crWalk) expr(n ast.Node) []crItem {
 			items = append(items, w.call(v, false)...)
 			return false
 		case *ast.SelectorExpr:
-			if w.mode == crModeLoad && w.isBoxField(v, w.p.sliceField) {
+			if w.loadMode() && w.isBoxField(v, w.p.sliceField) {
 				items = append(items, crAtom("M"))
 			}
 		}
@@ -881,7 +888,7 @@ func (w *crWalk) call(ce *ast.CallExpr, deferred bool) []crItem {
 	case *ast.SelectorExpr:
 		name := f.Sel.Name
 		if id, ok := f.X.(*ast.Ident); ok && id.Obj == nil && w.p.imports[id.Name] {
-			if w.mode != crModeFS {
+			if !w.fsMode() {
 				return nil
 			}
 			switch id.Name + "." + name {
@@ -915,16 +922,21 @@ func (w *crWalk) call(ce *ast.CallExpr, deferred bool) []crItem {
 		// a method
 		switch name {
 		case "Lock", "RLock", "Unlock", "RUnlock":
-			if w.mode == crModeFS && w.locks && len(ce.Args) == 0 {
+			if w.fsMode() && w.locks && len(ce.Args) == 0 {
 				return []crItem{crAtom(strings.ToLower(name))}
 			}
 			return nil
 		case "Flush", "Close", "Sync", "Write", "WriteString", "Truncate":
 			if len(w.p.funcs[name]) == 0 { // not a method of the package: a writer / file handle, or something foreign
-				if k, p := w.handle(f.X); k == "w" && w.mode == crModeFS {
+				if k, p := w.handle(f.X); k == "w" && w.fsMode() {
 					return []crItem{crAtom(strings.ToLower(name) + "(" + p + ")")}
 				}
 				return nil
+			}
+		}
+		if w.mode == crModeScope && name == "Emit" {
+			if inner, ok := crUnparen(f.X).(*ast.SelectorExpr); ok && inner.Sel.Name == "AfterMessageDeleted" {
+				return []crItem{crAtom("E")}
 			}
 		}
 		if fd := w.p.uniqueFunc(name, true); fd != nil {
@@ -933,7 +945,7 @@ func (w *crWalk) call(ce *ast.CallExpr, deferred bool) []crItem {
 		return nil
 	case *ast.Ident:
 		if f.Name == "verifStep" && f.Obj == nil {
-			if w.mode != crModeFS {
+			if !w.fsMode() {
 				return nil
 			}
 			if len(ce.Args) >= 1 {
@@ -995,7 +1007,7 @@ func (w *crWalk) openFile(ce *ast.CallExpr) string {
 }
 
 func (w *crWalk) inline(fd *ast.FuncDecl, ce *ast.CallExpr) []crItem {
-	if w.mode == crModeLoad && fd == w.loader {
+	if w.loadMode() && fd == w.loader {
 		return []crItem{crAtom("L")}
 	}
 	if len(w.stack) > 10 {
